@@ -1,5 +1,5 @@
 SPECIFICATION Spec
-CONSTANT MaxRows = 8
+CONSTANT MaxRows = 7
 CONSTANT MaxCols = 8
 INVARIANT AlwaysConnected
 INVARIANT OriginFreeG
